@@ -1419,6 +1419,8 @@ package flags
 //@ pure func hRows(p *Parser, c *Command, n int) int = ite(n <= 0, 0, hRows(p, c, n-1) + ite(helpSkip(p, c, groupAt(c, n-1)), 0, nShow(groupAt(c, n-1).options, len(groupAt(c, n-1).options))))
 //@ pure func hChain(p *Parser, n int) int = ite(n <= 0, 0, hChain(p, n-1) + hRows(p, activeAt(p.Command, n-1), iterlen(Group.eachGroup, activeAt(p.Command, n-1).Group)))
 
+// nDesc(args, k): how many of the first k positional arguments have a description (those get a row)
+//@ pure func nDesc(args []*Arg, k int) int = ite(k <= 0, 0, nDesc(args, k-1) + ite(args[k-1].Description != "", 1, 0))
 //@ func (p *Parser) WriteHelp(writer io.Writer)
 //@   props C16 C17 C04
 //@   requires p != nil && p.Command != nil
@@ -1437,6 +1439,7 @@ package flags
 //@   loop 5 decreases chainLen(root) - cnt_5
 //@   loop 6 invariant[C17] (c == p.Command ==> !printcmd && !aligninfo.indent) && (c != p.Command ==> printcmd || aligninfo.indent)
 //@   loop 7 invariant[C17] (c == p.Command ==> !printcmd && !aligninfo.indent) && (c != p.Command ==> printcmd || aligninfo.indent)
+//@   loop 8 invariant[C16] unfold(nDesc(c.args, idx_8 + 1)) && unfold(nDesc(c.args, 0)) && len(args) == nDesc(c.args, idx_8) && forall(a, 0, len(args), args[a].Description != "")
 //@   loop 8 invariant[C17] use(eag_elem, root, cnt_5, 0) && use(eg_nonempty, c.Group) && forall(a, 0, len(args), argWidth(args[a]) + ite(c != p.Command, 4, 0) <= aligninfo.maxLongLen)
 //@   loop 9 invariant[C17] forall(a, 0, len(args), argWidth(args[a]) + ite(c != p.Command, 4, 0) <= aligninfo.maxLongLen)
 //@   at[C17] call Parser.writeHelpOption #1: use(eag_elem, root, cnt_5, idx_6)
@@ -1816,3 +1819,25 @@ package flags
 //@   at[C19] call append #1: !(mtag.Get("long") == "" && mtag.Get("short") == "" && mtag.Get("ini-name") == "") && mtag.Get("no-flag") == ""
 //@   at[C19] call newErrorf #1: rc > 1
 //@   at[C19] call newErrorf #2: option.isBool() && !isnil(option.Default)
+
+
+// INI writer: one section per non-hidden group of the command, then every
+// non-hidden subcommand under the section prefix made of the command path.
+//@ func writeCommandIni(command *Command, namespace string, writer io.Writer, options IniOptions)
+//@   props C12 C04
+//@   requires command != nil
+//@   at[C12] call writeGroupIni #1: !group.Hidden
+//@   at[C12] call writeCommandIni #1: !c.Hidden && fqn == ite(len(namespace) != 0, namespace + "." + c.Name, c.Name)
+
+// Group lookup by description (section headers of INI files): the result, if
+// any, is a group below g whose description equals the name up to letter case;
+// none is returned only if there is no such group.
+//@ pure func findMatch(g *Group, gg *Group, lname string) bool = gg != g && strings.ToLower(gg.ShortDescription) == lname
+//@ func (g *Group) Find(shortDescription string) (r *Group)
+//@   props C13 C12 C04
+//@   requires g != nil
+//@   let root := g
+//@   loop 1 invariant (ret != nil ==> findMatch(root, ret, strings.ToLower(shortDescription))) && (ret == nil ==> forall(J, 0, idx_1, !findMatch(root, iterelem(Group.eachGroup, root, J, 0), strings.ToLower(shortDescription))))
+//@   ensures[C13] r != nil ==> findMatch(g, r, strings.ToLower(shortDescription))
+//@   ensures[C13] r == nil ==> forall(J, 0, iterlen(Group.eachGroup, g), !findMatch(g, iterelem(Group.eachGroup, g, J, 0), strings.ToLower(shortDescription)))
+//@   assigns nothing
